@@ -22,6 +22,9 @@ const (
 	maxDNS0Size = 4094
 )
 
+// maxUDPPayload is the largest payload a UDP datagram can carry over IPv4.
+const maxUDPPayload = 65507
+
 // This is the required size of the OOB buffer to pass to ReadMsgUDP.
 var udpOOBSize = func() int {
 	// We can't know whether we'll get an IPv4 control message or an
@@ -126,6 +129,13 @@ func (p Proxy) serveUDP(l net.PacketConn, inflightRequests chan struct{}) error 
 					rsize = maxUDPSize
 				}
 				rbuf[2] |= 0x2 // mark response as truncated
+			}
+			if rsize > maxUDPPayload {
+				// A client can advertise up to 65535 bytes, more than a
+				// datagram can carry: sending would fail and the client
+				// would get no reply at all.
+				rsize = maxUDPPayload
+				rbuf[2] |= 0x2
 			}
 			_, _, werr := c.WriteMsgUDP(rbuf[:rsize], oobWithSrc(lip), raddr)
 			if err == nil {
